@@ -24,7 +24,10 @@ for m in sorted(glob.glob(os.path.join(root, "seeded", "*", "meta.json"))):
 open(os.path.join(root, "seeded", "README.md"), "w").write(
     "# Seeded changes (independently produced) and which check catches them\n\n"
     "Each directory holds `patch.diff` (the breaking change), `demo.diff` (a test that fails with it and passes without), the author's `notes.md` and `meta.json`.\n"
-    "None of these is ever committed to /repo. Reproduce: `tools/mutcheck.py <ID> seeded/<ID>/patch.diff`.\n\n"
+    "None of these is ever committed to /repo. Reproduce: `tools/mutcheck.py <ID> seeded/<ID>/patch.diff` (for a second-round directory `<ID>-2` the property id is `<ID>`).\n"
+    "Rows `<ID>-2` are the second round: a change different in kind from the first one for the same property. `caught` = what the check said when the change was first tried: "
+    "`yes` = caught as the check stood; `after-strengthening` = missed at first, the check was strengthened (last column) and now catches it. "
+    "Procedure, tooling notes and the lessons from the misses: DESIGN.md §12.\n\n"
     "| property | crate | needs, to manifest | caught | how the check reacted / what was strengthened |\n|---|---|---|---|---|\n" + "\n".join(rows) + "\n")
 print("kept", pid)
 import subprocess; subprocess.call([os.path.join(root,"tools","gen_asbuilt_md.py")])
